@@ -139,4 +139,135 @@ def run(chk, repo):
     chk.require(not bad, "C09-X3", op.where(oi), "no file-system write is reachable from open_image outside create_cache",
                 f"the read/fallback path writes: {bad[:3]}", key="open_image:fallback-writes")
     chk.attempt(open_after_torn, chk, repo)
+    chk.attempt(lookup_model, chk, repo)
+    chk.attempt(decode_prefixes, chk, repo)
     chk.count("functions", len(reach))
+
+
+CACHING_ERROR_CLASSES = ["CachingError", "FileNotFoundError", "OSError", "Exception", "BaseException", "object"]
+
+
+def lookup_model(chk, repo):
+    """C09-X6: caching.read_cache evaluated with recording stubs in every state of the two cache places (the user cache dir, where
+    create_cache writes; next to the image, where the CLI writes): absent / complete / torn.  A complete index in the user cache dir
+    is always what is returned (that is what a repairing create_cache leaves behind), whatever lies next to the image; a complete
+    index next to the image is returned when the user cache dir has none; no cache at all, or only torn ones, is a CachingError."""
+    from collections import OrderedDict
+    from ..shapes import Const, Fn, Interp, NonTermination, Obj, ShapeError, _Raise
+    cach = repo.module("ceos_alos2.sar_image.caching")
+    where = f"{cach.relpath}:read_cache"
+    chk.rule("C09-X6", "read_cache in every state of the two cache places: a complete index in the user cache dir is returned (a repaired cache is used), only torn / no caches raise CachingError", 9)
+    states = ("absent", "complete", "torn")
+    for local in states:
+        for remote in states:
+            I = Interp(repo)
+            sc = I.module_scope(cach)
+            hit = {"local": Obj("Group", OrderedDict(src=Const("local"))), "remote": Obj("Group", OrderedDict(src=Const("remote")))}
+            texts = {"local": Obj("Text", OrderedDict(of=Const("local"), state=Const(local))), "remote": Obj("Text", OrderedDict(of=Const("remote"), state=Const(remote)))}
+
+            def decode(I_, a, kw):
+                t = a[0] if a else kw.get("cache")
+                if not (isinstance(t, Obj) and t.cls == "Text"):
+                    raise ShapeError(f"decode is given {t!r:.40}")
+                if t.fields["state"].v == "torn":
+                    raise _Raise("raise CachingError('invalid or incomplete cache file')", CACHING_ERROR_CLASSES)
+                return hit[t.fields["of"].v]
+            sc.vars["decode"] = Fn("py", impl=decode, name="decode")
+            lp = Obj("Path", OrderedDict(is_file=Fn("py", impl=lambda I_, a, k: Const(local != "absent"), name="is_file"), exists=Fn("py", impl=lambda I_, a, k: Const(local != "absent"), name="exists")))
+
+            def read_text(I_, a, kw):
+                if local == "absent":
+                    raise _Raise("FileNotFoundError: no such file", ["FileNotFoundError", "OSError", "Exception", "BaseException", "object"])
+                return texts["local"]
+            lp.fields["read_text"] = Fn("py", impl=read_text, name="read_text")
+            lp.fields["read_bytes"] = Fn("py", impl=lambda I_, a, k: Obj("Bytes", OrderedDict(decode=Fn("py", impl=lambda I2, a2, k2: read_text(I2, a2, k2), name="decode"))), name="read_bytes")
+            sc.vars["local_cache_location"] = Fn("py", impl=lambda I_, a, k: lp, name="local_cache_location")
+            sc.vars["remote_cache_location"] = Fn("py", impl=lambda I_, a, k: Const("IMG-X.index"), name="remote_cache_location")
+            rb = Obj("Bytes", OrderedDict(decode=Fn("py", impl=lambda I_, a, k: texts["remote"], name="decode")))
+
+            def m_getitem(I_, a, kw):
+                if remote == "absent" or not (isinstance(a[0], Const) and a[0].v == "IMG-X.index"):
+                    raise _Raise("KeyError 'IMG-X.index'", ["KeyError", "LookupError", "Exception", "BaseException", "object"])
+                return rb
+            mapper = Obj("Mapper", OrderedDict(root=Const("memory://product"), __getitem__=Fn("py", impl=m_getitem, name="__getitem__"),
+                                               __contains__=Fn("py", impl=lambda I_, a, k: Const(remote != "absent" and isinstance(a[0], Const) and a[0].v == "IMG-X.index"), name="__contains__")))
+            mapper.fields["get"] = Fn("py", impl=lambda I_, a, k: (rb if remote != "absent" else (a[1] if len(a) > 1 else Const(None))), name="get")
+            try:
+                out = I.call(I.lookup("read_cache", sc), [mapper, Const("IMG-X"), Const(7)], {})
+                outcome = "local" if out is hit["local"] else "remote" if out is hit["remote"] else f"returns {out!r:.40}"
+            except _Raise as e:
+                outcome = "CachingError" if e.classes and "CachingError" in e.classes else f"raises {e.what[:60]}"
+            except (ShapeError, NonTermination, RecursionError) as e:
+                raise AnalysisError(f"{where}: cannot be evaluated with user cache dir {local} / next to the image {remote}: {str(e)[:120]}")
+            sit = f"index in the user cache dir {local}, next to the image {remote}"
+            if local == "complete":
+                ok, want = outcome in (("local",) if remote != "complete" else ("local", "remote")), "the complete index of the user cache dir is returned"
+            elif local == "absent" and remote == "complete":
+                ok, want = outcome == "remote", "the index next to the image is returned"
+            elif local == "torn" and remote == "complete":
+                ok, want = outcome in ("remote", "CachingError"), "the index next to the image, or CachingError (fall back to the parse)"
+            else:
+                ok, want = outcome == "CachingError", "CachingError (fall back to the parse)"
+            chk.require(ok, "C09-X6", where, f"{sit}: {want}",
+                        f"{sit}: read_cache gives {outcome}, expected: {want}" + (" - the index a repairing create_cache has just written is never used, every later open parses the image again" if local == "complete" else ""),
+                        key=f"read_cache:{local}:{remote}")
+
+
+def decode_prefixes(chk, repo):
+    """C09-X7: caching.decode evaluated on every kind of crash point of a written index - the empty file, prefixes cut inside a
+    string / a number / after a separator - with json.loads folded by the standard library: each must raise CachingError; the complete
+    document must not"""
+    from collections import OrderedDict
+    from ..shapes import Const, DictS, Fn, Interp, ListLit, Obj, ShapeError, _Raise
+    import json
+    cach = repo.module("ceos_alos2.sar_image.caching")
+    where = f"{cach.relpath}:decode"
+    doc = json.dumps({"__type__": "group", "url": "u", "path": "HH", "attrs": {"a": [1, 2.5, {"__type__": "tuple", "data": [1]}]}, "data": {}})
+    cuts = sorted({0, 1, 2, 5, 12, 13, 14, 20, 27, len(doc) // 2, len(doc) - 3, len(doc) - 1})
+    chk.rule("C09-X7", "decode on the empty file and on proper prefixes of an index raises CachingError (a torn cache is no cache)", len(cuts))
+
+    def to_shape(v):
+        if isinstance(v, dict):
+            return DictS(OrderedDict((k, to_shape(x)) for k, x in v.items()))
+        if isinstance(v, list):
+            return ListLit([to_shape(x) for x in v])
+        return Const(v)
+    for cut in cuts + [len(doc)]:
+        I = Interp(repo)
+        sc = I.module_scope(cach)
+
+        def loads(I_, a, kw):
+            t = a[0]
+            if not (isinstance(t, Const) and isinstance(t.v, (str, bytes))):
+                raise ShapeError(f"json.loads of {t!r:.40}")
+            try:
+                v = json.loads(t.v)
+            except json.JSONDecodeError as e:
+                raise _Raise(f"json.JSONDecodeError: {e}", ["JSONDecodeError", "ValueError", "Exception", "BaseException", "object"])
+            hook = kw.get("object_hook")
+
+            def build(x):
+                if isinstance(x, dict):
+                    d = DictS(OrderedDict((k, build(y)) for k, y in x.items()))
+                    return I_.call(hook, [d], {}) if hook is not None else d
+                if isinstance(x, list):
+                    return ListLit([build(y) for y in x])
+                return Const(x)
+            return build(v)
+        js = Obj("json", OrderedDict(loads=Fn("py", impl=loads, name="json.loads"), JSONDecodeError=Fn("lib", name="json.JSONDecodeError")))
+        sc.vars["json"] = js
+        marker = Obj("Group", OrderedDict())
+        sc.vars["decode_hierarchy"] = Fn("py", impl=lambda I_, a, k: marker if isinstance(a[0], DictS) and a[0].items.get("__type__") is not None else a[0], name="decode_hierarchy")
+        text = doc[:cut]
+        try:
+            out = I.call(I.lookup("decode", sc), [Const(text)], OrderedDict(records_per_chunk=Const(7)))
+            outcome = "group" if out is marker else f"returns {out!r:.50}"
+        except _Raise as e:
+            outcome = "CachingError" if e.classes and "CachingError" in e.classes else f"raises {e.what[:70]}"
+        except (ShapeError, RecursionError) as e:
+            raise AnalysisError(f"{where}: cannot be evaluated on a prefix of {cut} characters: {str(e)[:120]}")
+        if cut == len(doc):
+            chk.require(outcome == "group", "C09-X7", where, "the complete document decodes", f"the complete document gives {outcome}", key="decode:complete")
+        else:
+            chk.require(outcome == "CachingError", "C09-X7", where, f"an index cut after {cut} of {len(doc)} characters raises CachingError",
+                        f"an index file cut after {cut} of {len(doc)} characters ({text[-12:]!r}) gives {outcome} instead of CachingError: a torn cache is not treated as 'no cache'", key=f"decode:prefix:{'empty' if cut == 0 else 'cut'}")
